@@ -182,13 +182,13 @@ func (r *cbRun) execJob(job *cbJob) {
 		o.Vals = []int{}
 		o.Call = r.now()
 		r.tr.WalkDeleted(o.Path, func(v interface{}) bool { cb(v, nil); return evenCond(v) },
-			func(v interface{}) { o.Vals = append(o.Vals, toInt(v)); cb(v, nil) })
+			func(v interface{}) { o.Vals = append(o.Vals, obsInt(o, o.Path, v)); cb(v, nil) })
 		o.Ret = r.now()
 	case "query", "walk", "walksorted":
 		o.KV = []KV{}
 		visit := func(path []string, _ *ctree.Leaf, val interface{}) error {
 			p := append([]string{}, path...)
-			o.KV = append(o.KV, KV{p, toInt(val)})
+			o.KV = append(o.KV, KV{p, obsInt(o, p, val)})
 			cb(val, p)
 			return nil
 		}
@@ -411,7 +411,7 @@ func (r *cbRun) dispatch(t *cbThread) bool {
 	uniq := 100*(t.id+1) + t.next
 	job := &cbJob{t: t, spec: spec, step: r.step}
 	o := HOp{G: t.id, Kind: spec.Kind, Path: spec.Path}
-	var parkedDel *cbJob
+	var parkedDel, parkedVisit *cbJob
 	for _, x := range r.threads {
 		if p := x.parked.Load(); p != nil {
 			if job.ctx == "" || p.kind == "delete" {
@@ -419,6 +419,9 @@ func (r *cbRun) dispatch(t *cbThread) bool {
 			}
 			if p.kind == "delete" {
 				parkedDel = p.job
+			}
+			if p.kind == "query" {
+				parkedVisit = p.job
 			}
 		}
 	}
@@ -476,7 +479,12 @@ func (r *cbRun) dispatch(t *cbThread) bool {
 			o.Kind = "glv" // no handle is ever taken on the root
 		}
 	case "walksorted":
-		o.Kind = "walk"
+		o.Kind, o.Sorted = "walk", true
+	}
+	if parkedVisit != nil && isDelKind(spec.Kind) {
+		// what the clause "a delete is atomic for readers" is about: on a correct tree this
+		// delete waits for the root lock the parked visit holds
+		r.st.label("delete-started-while-parked:" + parkedVisit.spec.Kind)
 	}
 	job.op = o
 	t.job = job
@@ -744,6 +752,8 @@ func runCB(sc *CBScenario) (st *gateStats, hist *History, fail *gateFail) {
 		return st, hist, fail
 	}
 	sort.SliceStable(hist.Ops, func(i, j int) bool { return hist.Ops[i].Call < hist.Ops[j].Call })
+	_, _, rd := readerDeleteAtomicity(hist)
+	rd.labels(st.labels)
 	f, inc := judgeSmall(hist, true)
 	if f != nil {
 		return st, hist, &gateFail{f.class, f.msg}
@@ -796,9 +806,43 @@ func genCB(t *rapid.T) *CBScenario {
 	pool := [][]string{{"a", "x"}, {"a", "y"}, {"a", "z"}, {"a", "w", "p"}, {"a", "w", "q"}, {"b", "x"}, {"b", "y"}}
 	extra := [][]string{{"a", "v"}, {"a", "w", "r"}, {"c", "x"}, {"a"}, {"a", "w"}, {"a", "x", "k"}, {"b"}}
 	patterns := [][]string{{"a"}, {"a"}, {"a", "*"}, {"a", "*"}, {}, {"*"}, {"*", "*"}, {"a", "w"}, {"b"}, {"*", "x"}, {"a", "x"}, {"a", "*", "*"}}
-	profile := rapid.SampledFrom([]string{"delete-vs-handles", "delete-vs-handles", "query-vs-writers", "mixed"}).Draw(t, "profile")
-	for _, i := range rapid.SliceOfNDistinct(rapid.IntRange(0, len(pool)-1), 2, 6, func(i int) int { return i }).Draw(t, "init") {
-		sc.Init = append(sc.Init, CBInit{Path: pool[i], Odd: rapid.Bool().Draw(t, "odd"), Handle: rapid.IntRange(0, 4).Draw(t, "handle") != 0})
+	profile := rapid.SampledFrom([]string{"delete-vs-handles", "delete-vs-handles", "query-vs-writers", "mixed", "visit-vs-multidelete"}).Draw(t, "profile")
+	if profile == "visit-vs-multidelete" {
+		// 3-10 leaves spread over several branches (two or three levels deep)
+		pool, extra = nil, [][]string{{"a", "v"}, {"b", "w", "r"}, {"d", "x"}, {"a"}, {"c", "w"}, {"b", "x", "k"}, {"d"}}
+		for _, top := range []string{"a", "b", "c"} {
+			for _, mid := range []string{"w", "x", "y"} {
+				var leaves [][]string
+				switch rapid.IntRange(0, 7).Draw(t, "shape") {
+				case 0, 1, 2:
+				case 3, 4:
+					leaves = [][]string{{top, mid}}
+				case 5:
+					leaves = [][]string{{top, mid, "p"}}
+				default:
+					leaves = [][]string{{top, mid, "p"}, {top, mid, "q"}}
+				}
+				for _, p := range leaves {
+					if len(pool) < 10 {
+						pool = append(pool, p)
+					}
+				}
+			}
+		}
+		for _, p := range [][]string{{"a", "w", "p"}, {"b", "x"}, {"c", "y", "q"}} {
+			if len(pool) < 3 {
+				pool = append(pool, p) // (a duplicate or an Add that meets a leaf merely fails or overwrites)
+			}
+		}
+		patterns = [][]string{{}, {}, {"*"}, {"a"}, {"b"}, {"c"}, {"*", "*"}, {"*", "w"}, {"*", "x"}, {"*", "y"}, {"a", "*"}, {"b", "*"}, {"*", "*", "*"}, {"*", "*", "p"}, {"*", "x", "*"}, {"a", "w"}}
+		for _, p := range pool {
+			// mostly even values: conditional deletes remove them
+			sc.Init = append(sc.Init, CBInit{Path: p, Odd: rapid.IntRange(0, 3).Draw(t, "odd") == 0, Handle: rapid.IntRange(0, 3).Draw(t, "handle") == 0})
+		}
+	} else {
+		for _, i := range rapid.SliceOfNDistinct(rapid.IntRange(0, len(pool)-1), 2, 6, func(i int) int { return i }).Draw(t, "init") {
+			sc.Init = append(sc.Init, CBInit{Path: pool[i], Odd: rapid.Bool().Draw(t, "odd"), Handle: rapid.IntRange(0, 4).Draw(t, "handle") != 0})
+		}
 	}
 	parkAt := func(t *rapid.T) []int {
 		return rapid.SliceOfNDistinct(rapid.IntRange(1, 4), 1, 2, func(i int) int { return i }).Draw(t, "park_at")
@@ -880,6 +924,44 @@ func genCB(t *rapid.T) *CBScenario {
 			}
 			sc.Threads = append(sc.Threads, p)
 		}
+	case "visit-vs-multidelete":
+		// thread 0: a visit that parks inside its k-th visitor call (and possibly again later);
+		// thread 1: starts with a delete of many leaves (subtree / glob) - on a correct tree it
+		// waits for the root lock until the visit is released; further threads: anything.
+		main := CBOp{Kind: rapid.SampledFrom([]string{"query", "walk", "walksorted", "walksorted"}).Draw(t, "main")}
+		main.ParkAt = rapid.SliceOfNDistinct(rapid.IntRange(1, 6), 1, 2, func(i int) int { return i }).Draw(t, "park_at")
+		if main.Kind == "query" {
+			main.Path = pattern(t)
+		}
+		prog := []CBOp{main}
+		if rapid.IntRange(0, 2).Draw(t, "more") == 0 {
+			prog = append(prog, anyOp(t, false))
+		}
+		sc.Threads = append(sc.Threads, prog)
+		for g := 0; g < nOthers; g++ {
+			var p []CBOp
+			if g == 0 || rapid.IntRange(0, 2).Draw(t, "deleter") == 0 {
+				p = append(p, CBOp{Kind: rapid.SampledFrom([]string{"del", "del", "del", "delcond", "walkdel"}).Draw(t, "delkind"), Path: pattern(t)})
+			}
+			k := rapid.IntRange(0, 3).Draw(t, "nops")
+			for i := 0; i < k; i++ {
+				p = append(p, anyOp(t, false))
+			}
+			if len(p) == 0 {
+				p = append(p, anyOp(t, false))
+			}
+			sc.Threads = append(sc.Threads, p)
+		}
+		// the visit starts, the delete starts; then releases and further operations in a generated order
+		sc.Steps = []GStep{{Kind: "run", T: 0}, {Kind: "run", T: 1}}
+		sc.Steps = append(sc.Steps, rapid.SliceOfN(rapid.Custom(func(t *rapid.T) GStep {
+			k := "run"
+			if rapid.IntRange(0, 2).Draw(t, "release") == 0 {
+				k = "rel"
+			}
+			return GStep{Kind: k, T: rapid.IntRange(0, nOthers).Draw(t, "t")}
+		}), 1, 12).Draw(t, "steps")...)
+		return sc
 	default:
 		for g := 0; g <= nOthers; g++ {
 			var p []CBOp
